@@ -150,8 +150,11 @@ def body_query(desc, F, *args):
             if not same_set(list(ro), list(ro.graph)):
                 return "iterating a CONSTRUCT result does not give the triples of its graph"
         else:
+            rows = list(ro)            # first consumer: the result's generator branch
             res = {"vars_": ro.vars, "bindings": ro.bindings}
-            rows = list(ro)
+            again = list(ro)           # second pass: served from the stored bindings
+            if len(again) != len(rows):
+                return "iterating a SELECT result twice gives different numbers of rows"
             seen_by_iteration = ro.bindings
             if desc.get("model_known_empty_rows"):
                 # residual check for the recorded finding: iteration leaves out the solutions that bind no projected variable
@@ -499,6 +502,7 @@ def bounds(tier):
                      "nestings n=2%s, per predicate/graph shape, data terms symbolic IRIs and (second variant) symbolic integer literals incl. the falsy one; SELECT for all, ASK and CONSTRUCT for every single-operator template"
                      % (len(singles()), len(graph_queries()), len(pairs()),
                         "" if tier == "quick" else " (and n=4)", "" if tier == "quick" else " and n=3"),
+            "public": "every single-operator template without query constants also as text through Graph.query() -> SPARQLProcessor -> Result, observed through the Result object (vars, bindings, iteration twice, len, bool, askAnswer, graph), n=2",
             "outside": "arithmetic/string functions, literals other than booleans produced by expressions, property paths (C11), "
                        "aggregates and modifiers (C08), SERVICE, FROM/FROM NAMED, blank nodes in patterns, n>3"}
 
@@ -629,6 +633,8 @@ def residual(ob):
     """iteration of a SELECT Result skips solutions that bind no projected variable (recorded finding): the same obligation
     against that reading, so that any other disagreement between iteration, len() and bindings is still reported"""
     d = ob["desc"]
+    if scope_issues(d["group"]):
+        return None  # keyed by its scope class
     if d.get("public") and d["form"] == "select" and not d.get("model_known_empty_rows"):
         o2 = dict(ob)
         o2["desc"] = dict(d, model_known_empty_rows=True)
